@@ -88,7 +88,7 @@ theorem findWordStart_spec (rest : Str) (pos : Nat) :
   split
   · next hs =>
     cases rest with
-    | nil => simp [startsWithNApos] at hs
+    | nil => simp [startsWithNApos, startsWithIgnoreAsciiCase] at hs
     | cons c cs => right; exact ⟨[], c, cs, by simp, rfl, by simp⟩
   · exact findNonWs_spec rest pos
 
